@@ -10,9 +10,9 @@
     the value and the mathematical comparison holds on it;
   * BigInt schemas compare the coerced value with a `*big.Int` bound through float64
     (`Coerce.bigCmpViaFloat`: `validate.Gt` on two `*big.Int` goes through `coerce.ToFloat64`).
-    `c17_bigint_check_full` (the check is the comparison of the integers) is false —
-    `bigint_check_witness`: 2^53+1 > 2^53 is refused, and 2^1024 > 0 is refused (no float64
-    reading) — and `c17_bigint_check_partial` proves it for operands below 2^53 in magnitude.
+    That was the code before `fix: compare and divide big integers exactly`
+    (`legacy_bigint_check_witness`, `legacy_bigint_check_partial`); now `c17_bigint_check_exact`:
+    the check is the comparison of the integers.
     The third sentence itself (`C17.c17_schema`, `C17.c17_schema_sound`: the coercing schema
     does to the coerced value exactly what the plain schema does) holds for BigInt as for every
     target.
@@ -63,14 +63,14 @@ theorem bigToF64_exact (v : Int) (h : v.natAbs < 2 ^ 53) : bigToF64 v = .fin v 0
     · rw [if_pos hneg]; congr 1; omega
     · rw [if_neg hneg]; congr 1; omega
 
-/-- The full statement for BigInt bounds: the check is the comparison of the integers. -/
-def c17_bigint_check_full : Prop := ∀ (op : CmpOp) (v b : Int), bigCmpViaFloat op v b = op.holdsInt v b
+/-- **BigInt schemas: the check on the coerced value is the comparison of the integers**
+    (full statement, since `fix: compare and divide big integers exactly`). -/
+theorem c17_bigint_check_exact (op : CmpOp) (v b : Int) :
+    (Chk.cmpBig op b).holds .big (.int v) = op.holdsInt v b := rfl
 
-/-- It holds while both operands are below 2^53 in magnitude… -/
-theorem c17_bigint_check_partial (op : CmpOp) (v b : Int) (hv : v.natAbs < 2 ^ 53) (hb : b.natAbs < 2 ^ 53) :
-    (Chk.cmpBig op b).holds .big (.int v) = op.holdsInt v b := by
-  have e : (Chk.cmpBig op b).holds .big (.int v) = bigCmpViaFloat op v b := rfl
-  rw [e]
+/-- The code before that fix compared through float64: exact below 2^53 … -/
+theorem legacy_bigint_check_partial (op : CmpOp) (v b : Int) (hv : v.natAbs < 2 ^ 53) (hb : b.natAbs < 2 ^ 53) :
+    bigCmpViaFloat op v b = op.holdsInt v b := by
   unfold bigCmpViaFloat
   rw [bigToF64_exact v hv, bigToF64_exact b hb]
   simp only [finOrOverflow, F.cmp, Int.pow_zero, Int.mul_one]
@@ -79,17 +79,11 @@ theorem c17_bigint_check_partial (op : CmpOp) (v b : Int) (hv : v.natAbs < 2 ^ 5
   · subst h; rw [Int.compare_eq_eq.mpr rfl]; cases op <;> simp [CmpOp.ofOrdering, CmpOp.holdsInt]
   · rw [Int.compare_eq_gt.mpr h]; cases op <;> simp [CmpOp.ofOrdering, CmpOp.holdsInt] <;> omega
 
-/-- …and fails above: `BigInt().Gt(2^53).Parse(2^53+1)` is refused (both round to 2^53),
-    `BigInt().Gt(0).Parse(2^1024)` is refused (no float64 reading). -/
-theorem bigint_check_witness : ¬ c17_bigint_check_full := by
-  intro h
-  have := h .gt (2 ^ 53 + 1) (2 ^ 53)
-  revert this
+/-- … and wrong above: `BigInt().Gt(2^53).Parse(2^53+1)` was refused, `BigInt().Gt(0).Parse(2^1024)` too. -/
+theorem legacy_bigint_check_witness :
+    bigCmpViaFloat .gt (2 ^ 53 + 1) (2 ^ 53) = false ∧ bigCmpViaFloat .gt (2 ^ 1024) 0 = false := by
   decide +kernel
 
-theorem bigint_check_witness_huge : bigCmpViaFloat .gt (2 ^ 1024) 0 = false := by decide +kernel
-
-example : (2 ^ 53 - 1 : Int).natAbs < 2 ^ 53 ∧ (Chk.cmpBig .gt (2 ^ 53 - 2)).holds .big (.int (2 ^ 53 - 1)) = true := by
-  decide +kernel
+example : (Chk.cmpBig .gt (2 ^ 53)).holds .big (.int (2 ^ 53 + 1)) = true := by decide
 
 end Gozod.C17S
